@@ -11,7 +11,7 @@ META = {
     "level": "proof",
     "design_ref": "DESIGN.md §6 C18, notes/design-value.md",
     "text": "groupByA (Qentem/Model/Group.lean) transcribes Value.hpp GroupBy; groupBySpec is the left fold 'find the member by name, take the text of its value, append the object minus that member to that group, groups in first-appearance order'. Theorems relate the two for every array of objects that each contain the key (removed members allowed), and show that every input object lands in exactly one group and that the source is untouched. Each run builds arrays of 0-6 objects through the public API (key at every member position, string/number/bool/null/real key values, members of every kind, removed members before and after the key, nested removed members) and compares the real GroupBy result with the model (whole forest dump) and with the specification (abstract view of the groups).",
-    "note": "Trusted: Lean kernel; axioms ⊆ {propext, Quot.sound, Classical.choice}; harness and generators. Model and theorems are about the repaired behaviour (removed items are skipped, /repo 04169f1); a tree without the repair is reported through failing inputs with key groupby-removed-member. The template loop's group= attribute calls GroupBy directly (Template.hpp renderLoop); its rendering is covered by C02.",
+    "note": "Trusted: Lean kernel; axioms ⊆ {propext, Quot.sound, Classical.choice}; harness and generators. Model and theorems are about the repaired behaviour (removed items are skipped, /repo 04169f1); a tree without the repair is reported through failing inputs with key groupby-removed-member. The template loop's group= attribute calls GroupBy directly (Template.hpp renderLoop); loop_group_same_partition proves that the instance of the render model's groupBy parameter given by this model (groupByTmpl) iterates the specification's partition; the rendering itself is C02's.",
 }
 
 THEOREMS = [
@@ -24,6 +24,15 @@ THEOREMS = [
     "Qentem.Props.C18.groupBy_partition",
     "Qentem.Props.C18.names_groupInsert",
     "Qentem.Props.C18.group_names_first_appearance",
+    "Qentem.Props.C18.isUndefined_ofValue",
+    "Qentem.Props.C18.ofValueItems_eq_map",
+    "Qentem.Props.C18.toValueItems_eq_map",
+    "Qentem.Props.C18.groupView_eq",
+    "Qentem.Props.C18.tmplMembers_ofValueSlots",
+    "Qentem.Props.C18.itemView_ofValue",
+    "Qentem.Props.C18.valueView_ofValue",
+    "Qentem.Props.C18.tmplGroupView_ofValue",
+    "Qentem.Props.C18.loop_group_same_partition",
     "Qentem.Value.groupScan_spec",
     "Qentem.Value.groupLoop_spec",
     "Qentem.Value.groupAdd_view",
@@ -143,7 +152,8 @@ def gen_cases(ctx):
 
 
 def run(ctx):
-    ctx.prove(["Qentem.Props.C18"], THEOREMS)
+    ctx.gen_constants(["Expr", "Tmpl", "Escape"])   # the template render model (group= link) imports them
+    ctx.prove(["Qentem.Props.C18", "Qentem.Props.C18Tmpl"], THEOREMS)
     drv = ctx.build_driver()
     exe = ctx.build_harness("value_harness.cpp")
     if not (drv and exe):
